@@ -51,6 +51,13 @@ func membership(sa flows.SessionAssets, env envs.Environment, c *flows.Contact, 
 				return harn.Failf("urn-query-model", "%s: group %q (query %s): the evaluator says %v for a contact with URNs %v, the documented any/all semantics give %v", when, g.Name(), g.Query(), matches, c.URNs().RawURNs(), mv), nil
 			}
 		}
+		// the same for groups defined by one condition on a location field: the field is compared at its own level
+		if mv, ok := locationLeafModel(g.Query(), c); ok && active {
+			stats.Label("membership:location-leaf-model")
+			if mv != matches {
+				return harn.Failf("location-query-model", "%s: group %q (query %s): the evaluator says %v, the contact's field value at the field's own level gives %v (fields %s)", when, g.Name(), g.Query(), matches, mv, fieldsJSON(c)), nil
+			}
+		}
 		want := active && matches
 		state = append(state, fmt.Sprintf("%s=%v", g.Name(), in))
 		if in != want && len(alt) > 0 && active && g.CheckQueryBasedMembership(alt[0], c) != matches {
@@ -63,6 +70,42 @@ func membership(sa flows.SessionAssets, env envs.Environment, c *flows.Contact, 
 	}
 	sort.Strings(state)
 	return nil, state
+}
+
+var locationLeaf = regexp.MustCompile(`^(state|district|ward) (=|!=) "([^"\\]*)"$`)
+
+func fieldsJSON(c *flows.Contact) string {
+	b, _ := json.Marshal(c)
+	var m struct {
+		Fields json.RawMessage `json:"fields"`
+	}
+	_ = json.Unmarshal(b, &m)
+	return string(m.Fields)
+}
+
+// locationLeafModel: a location field's value for queries is the name of the location at the field's own level, i.e. the
+// last segment of the path stored under the key of that level (fields are keyed by their type in the world: state, district, ward).
+func locationLeafModel(query string, c *flows.Contact) (bool, bool) {
+	m := locationLeaf.FindStringSubmatch(query)
+	if m == nil {
+		return false, false
+	}
+	var fields map[string]map[string]any
+	_ = json.Unmarshal([]byte(fieldsJSON(c)), &fields)
+	path, _ := fields[m[1]][m[1]].(string)
+	name := ""
+	if path != "" {
+		segs := strings.Split(path, " > ")
+		name = strings.ToLower(strings.TrimSpace(segs[len(segs)-1]))
+	}
+	q := strings.ToLower(strings.TrimSpace(m[3]))
+	if m[3] == "" {
+		return (name == "") == (m[2] == "="), true
+	}
+	if name == "" {
+		return m[2] == "!=", true
+	}
+	return (name == q) == (m[2] == "="), true
 }
 
 var urnLeaf = regexp.MustCompile(`^(tel|twitter|mailto|facebook|telegram|urn) (=|!=|~) "([^"\\]*)"$`)
@@ -263,7 +306,7 @@ func drawModifier(t *rapid.T, w *world.World) world.M {
 		return M("type", "language", "language", rapid.SampledFrom([]string{"fra", "eng", ""}).Draw(t, "lang"))
 	case 2, 3:
 		f := rapid.SampledFrom(world.FieldDefs).Draw(t, "field")
-		vals := []string{"", "23", "17", "18", "19", "male", "female", "2018-01-01", "1999-12-31T23:59:59Z", "2000-01-01", "bobby", "Kigali", "10", "9"}
+		vals := []string{"", "23", "17", "18", "19", "male", "female", "2018-01-01", "1999-12-31T23:59:59Z", "2000-01-01", "bobby", "Kigali", "10", "9", "Rwanda > Kigali City > Gasabo", "Rwanda > Kigali City", "Gasabo", "Rwanda > Kigali City > Gasabo > Gisozi", "Eastern Province", "Centre"}
 		return M("type", "field", "field", M("key", f["key"], "name", f["name"]), "value", rapid.SampledFrom(vals).Draw(t, "value"))
 	case 4:
 		return M("type", "status", "status", rapid.SampledFrom([]string{"active", "blocked", "stopped", "archived"}).Draw(t, "status"))
